@@ -14,7 +14,7 @@ RULE = ("component trees from G3 (depth <= 6, fan-out <= 5, repeated and unknown
         "object(), a plain dict with the same items}, unchanged by permuting subcomponents at every level (all permutations when <= 4 children, else "
         "sampled) and by shuffling property insertion order and name case, and False in both directions after every single perturbation (component kind, "
         "one property value, property added/removed, subcomponent added/removed, one subcomponent duplicated in place of a sibling); copies by "
-        "deepcopy, pickle and serialise+parse are equal both ways and serialise identically, and two parses of one text (custom VTIMEZONE definitions with X- "
+        "deepcopy, pickle (of the API-built and of the parsed tree) and serialise+parse are equal both ways and serialise identically, and two parses of one text (custom VTIMEZONE definitions with X- "
         "properties included) are equal to each other; sibling families with identical properties that differ only in their children; non-trivial = tree with >= 3 components; distinct by case hash")
 ASSUMPTIONS = ["components carry upper-case names (as the parser produces) (S12)", "runs under the default (zoneinfo) provider; pytz pickling of custom zones is noted separately (S12)",
                "parameter-only perturbations are not asserted either way (the statement names kind, value and subcomponent multiset)",
@@ -265,6 +265,20 @@ def check_case(ctx, case):
         elif p1.to_ical() != p2.to_ical():
             ctx.fail("reparse-copy-serialises-differently", observed="bytes differ", expected="identical bytes")
             return
+        # deep copy and pickle of the tree that came out of the parser (unknown component names included)
+        ser_p = p1.to_ical()
+        for label, mk in (("deepcopy-of-parsed", lambda: copy.deepcopy(p1)), ("pickle-of-parsed", lambda: pickle.loads(pickle.dumps(p1)))):
+            try:
+                b = mk()
+            except Exception as e:
+                ctx.fail("copy-raises", observed=(label, f"{type(e).__name__}: {e}"[:200]), expected="a copy")
+                return
+            if eq_outcome(p1, b) != ("value", True, False) or eq_outcome(b, p1) != ("value", True, False):
+                ctx.fail("copy-not-equal", observed=(label, eq_outcome(p1, b), eq_outcome(b, p1)), expected="equal both ways")
+                return
+            if b.to_ical() != ser_p:
+                ctx.fail("copy-serialises-differently", observed=label, expected="identical bytes")
+                return
         ctx.count("reparse-copies")
     # ---- permutations
     for _ in range(3):
